@@ -13,6 +13,7 @@ var alphabet = []string{
 	"a", "b", " ", "-", "\"", "'", "(", ")", "x", "1", "2", "0", "/", "$", "w", "e", "d", "y", "c", "i", "p", "P", "f", "t", "%", "u", "v", "V", "q", "@", "r", "s", "S", "Y", "D", "C", "h", "l", "j", "k", "g", "G", "~", ".", ";", ",", "n", "N", "|", "^", "A", "I", "o", "O", "R", "X", "J", "W", "B", "E", "F", "T", "é", "中",
 	"\x01", "\x02", "\x04", "\x05", "\x06", "\x07", "\x08", "\t", "\x0b", "\x0c", "\x0e", "\x0f", "\x10", "\x11", "\x12", "\x13", "\x14", "\x15", "\x16", "\x17", "\x18", "\x19", "\x1b", "\x1d", "\x1f", "\x7f", "\x00",
 	"\x1b[A", "\x1b[B", "\x1b[C", "\x1b[D", "\x1b[H", "\x1b[F", "\x1b[3~", "\x1b[Z", "\x1b[1;5C", "\x1b[1;5D",
+	"\x1b[1;5R", "\x1b[1;2R", "\x1bOP", "\x1b[15~", // function keys; Ctrl-F3 / Shift-F3 look like cursor position reports
 	"\x1bb", "\x1bf", "\x1bd", "\x1b\x7f", "\x1bu", "\x1bl", "\x1bc", "\x1bt", "\x1by", "\x1b.", "\x1b1", "\x1b-", "\x1b<", "\x1b>", "\x1b?", "\x1b*", "\x1bp", "\x1bn", "\x1b\\", "\x1b#", "\x1br", "\x1b'", "\x1bw", "\x1bm", "\x1b|", "\x1b\x1e",
 	"\x18\x18", "\x18(", "\x18)", "\x18e", "\x18\x15", "\x18\x07", "\x18\x02", "\x18\x05", "\x18\x0e", "\x18\x0f", "\x18r", "\x18s", "\x18u", "\x18\x7f",
 	"\r",
